@@ -18,6 +18,8 @@ COMMON_ASSUMPTIONS = [
 def rd(ctx, N, M=16, B=4, K=1, qN=None, tiers=("quick", "thorough"), labels=None, covers=(), harness="VerifRdOracle", extra=None, tN=None):
     r = {"pkg": FLATE, "harness": harness, "picks": {"ctx": ctx}, "params": {"M": M, "B": B, "K": K, "N": N},
          "tiers": list(tiers), "labels": labels, "covers": list(covers)}
+    r["params"]["S"] = 0
+    r["params"]["B2"] = 1
     if tN is not None:
         r["thorough"] = {"N": tN}
     if extra:
@@ -26,6 +28,12 @@ def rd(ctx, N, M=16, B=4, K=1, qN=None, tiers=("quick", "thorough"), labels=None
 
 
 RD_CONTEXTS_Q = [(0, 3), (1, 2), (2, 2), (11, 2), (12, 2), (13, 2), (16, 2), (17, 2), (52, 2)]
+
+def rdp(harness, ctx, N, picks, labels, covers=(), M=16, tiers=("quick", "thorough"), extra=None):
+    r = rd(ctx, N, M=M, labels=labels, covers=covers, harness=harness, tiers=tiers, extra=extra)
+    r["picks"].update(picks)
+    return r
+
 
 CHECKS = {
     "C02": {
@@ -39,5 +47,32 @@ CHECKS = {
         "runs": [rd(c, n, labels=["C03:"], covers=["truncated"]) for c, n in RD_CONTEXTS_Q],
         "assumptions": ["oracle: reference inflater strict + permissive; stdlib compress/flate executed symbolically for error kinds",
                         "every implicit Go panic (index, slice bounds, nil, negative shift, divide) and every access outside an allocation is a forked branch whose failing side is reported"],
+    },
+    "C04": {
+        "level": "model_checking",
+        "runs": [rdp("VerifRdChunk", c, n, {"chunk": ch, "bufio": b}, ["C04:"], ["ran"])
+                 for (c, n, ch, b) in [(0, 3, 0, 0), (0, 3, 1, 1), (0, 3, 2, 0), (1, 2, 3, 1), (2, 2, 0, 0), (11, 2, 1, 0), (12, 2, 0, 1), (52, 2, 1, 0)]],
+        "assumptions": ["relational harness: the same symbolic stream decoded once from one piece and once through a chunking source behind bufio.NewReaderSize(16|17|64|4096), destination sizes 64 vs B2"],
+    },
+    "C05": {
+        "level": "model_checking",
+        "runs": [rdp("VerifRdPos", c, n, {"src": k, "ctor": ct}, ["C05:"], ["eof"])
+                 for (c, n) in [(0, 3), (2, 2), (32, 2)] for k in range(8) for ct in (0, 1)],
+        "assumptions": ["source kinds: bufio 16/64/4096/8192, bytes.Reader, bytes.Buffer, strings.Reader, custom ByteReader; constructors NewReader and NewReader+Reset; 3 symbolic bytes follow the stream"],
+    },
+    "C11": {
+        "level": "model_checking",
+        "runs": [rdp("VerifRdGate", c, n, {"bufio": b}, ["C11:"], []) for (c, n) in [(0, 3), (1, 2), (12, 2)] for b in (0, 2)],
+        "assumptions": ["'blocks forever' is modelled as the reachability event 'source asked for more after it delivered everything up to the gate' (source returns a marker error)"],
+    },
+    "C13": {
+        "level": "model_checking",
+        "runs": [rdp("VerifRdReset", c, n, {"olderr": oe, "wp": wp}, ["C13:"], ["ran"]) for (c, n) in [(0, 2)] for oe in (0, 1) for wp in range(5)],
+        "assumptions": ["inductive step: Reset from an arbitrary state inside the written invariant InvRd (symbolic scalars, symbolic history bytes around the positions, stale tables), not from enumerated histories"],
+    },
+    "C15": {
+        "level": "model_checking",
+        "runs": [rdp("VerifRdFail", c, n, {"with": w}, ["C15:"], ["faulted"]) for (c, n) in [(0, 3), (1, 2), (12, 2)] for w in (0, 1)],
+        "assumptions": ["source model: delivers k bytes (k symbolic, solver case-split over the whole stream) then a distinct error value, alone or together with the last bytes, behind a 16-byte bufio.Reader"],
     },
 }
